@@ -39,7 +39,7 @@ RULE = ("(a) systematic head (harness/gen_expr.py): every operator overload pair
 ASSUMPTIONS = [
     "every operator/helper theorem is about the model in Y0.Model.Dsl/Mutate; the tie to dsl.py/chain.py/contract.py is this run's correspondence check (sampling)",
     "theorems that cancel a division (fraction_simplify_den, chain_expand_den, contract_den, bayes/fraction_expand_den, sum_simplify_den) assume ProbFamily env and non-vanishing of the cancelled quantity (implied by Env.Positive on well-scoped leaves)",
-    "conditional: the specification normalises over the FREE EVENT variables of the expression; Probability.conditional meets it (conditional_den_probability); Expression.conditional also sums over bound Sum ranges (F11) and over intervention subscripts of non-Probability expressions: open findings keyed by verified mechanism; conditional_den states what the code computes, conditional_den_spec_partial the specification under the hypothesis that no such variable is collected, conditional_den_spec_observational the specification in full for expressions without Sum and without subscripts (the full statement is visible as -- OPEN: conditional_den_spec in Props/C13.lean). The defect is pinned by the last assertion of tests/test_algorithm/test_id_star.py::TestIDStar::test_idc_star and test_original_id_star.py::TestOriginalIDStar::test_idc_star (figure 9a: expected Sum[D,W](f) / Sum[D,W,Y](Sum[D,W](f)), compared through canonicalize with structural ==; the corrected code returns .../Sum[Y](Sum[D,W](f))): a fix that computes the free variables fails exactly these two tests (385/387)",
+    "conditional: the specification normalises over the FREE EVENT variables of the expression. After `fix:` a54a0f5 both overloads skip intervention subscripts; Expression.conditional still also sums over the ranges of inner Sums (what remains of F11): open finding conditional:extra=bound, keyed by verified mechanism. conditional_den states what the code computes, conditional_den_spec_partial the specification under the hypothesis that the collected variables are the free ones, conditional_complement_exact_iff proves that hypothesis EQUIVALENT to 'every name bound by an inner Sum is one of the ranges or occurs free elsewhere in the expression', conditional_den_spec_observational is the specification on exactly those inputs (subscripts anywhere), conditional_den_spec_sumfree / conditional_den_probability the Sum-free / leaf corollaries (the full statement is visible as -- OPEN: conditional_den_spec in Props/C13.lean). The remaining defect is pinned by the last assertion of tests/test_algorithm/test_id_star.py::TestIDStar::test_idc_star and test_original_id_star.py::TestOriginalIDStar::test_idc_star (figure 9a: expected Sum[D,W](f) / Sum[D,W,Y](Sum[D,W](f)), compared through canonicalize with structural ==; the corrected code returns .../Sum[Y](Sum[D,W](f))): a fix that computes the free variables fails exactly these two tests (385/387)",
     "the oracle gives no opinion on conditional / bayes_expand when a `+X` value or an Intervention OBJECT occurs in event position (constants of the specification that get_base() / Probability.conditional treat differently)",
     "leaf-level helpers (chain/fraction/bayes expansion, contract, Sum.simplify) are proved for well-scoped leaves (pairwise distinct names, one world, intervened names disjoint from the leaf's variables); the oracle judges only those",
 ]
@@ -64,7 +64,7 @@ def cf(name, ivs, star="n"):
 CORPUS = [
     # F11: conditional normalises over bound Sum ranges
     {"op": "conditional", "a": ["sum", [V(0)], P_([0, 1, 2])], "r": [V(1)]},
-    # conditional sums over intervention subscripts of a product
+    # witness of `fix:` a54a0f5: Expression.conditional summed over intervention subscripts of a product
     {"op": "conditional", "a": ["prod", P_([cf(1, [[0, "m"]]), cf(2, [[0, "m"]])]), P_([3])], "r": [V(1)]},
     {"op": "conditional", "a": P_([cf(1, [[0, "m"]]), cf(2, [[0, "m"]])]), "r": [V(1)]},
     {"op": "conditional", "a": P_([0, 1, 2]), "r": [V(0), V(1)]},
@@ -342,16 +342,20 @@ def free_event_names(enc):
 
 
 def python_conditional_names(enc):
-    """base names `conditional` collects on the real code: Probability.conditional skips Intervention objects,
-    Expression.conditional takes everything `_iter_variables` yields (events, subscripts, Sum ranges)"""
-    if isinstance(enc, list) and enc[0] in ("P", "PP"):
-        return {int(v[1]) for v in GE.event_vars(enc) if str(v[3]) != "1"}
-    return set(GE.all_names(enc))
+    """base names `conditional` collects on the real code: both overloads skip Intervention objects (Probability.conditional
+    always did, Expression.conditional since `fix:` a54a0f5), so: the event variables of every leaf and the ranges of every
+    inner Sum, never a name that occurs in subscripts only"""
+    names = {int(v[1]) for v in GE.event_vars(enc) if str(v[3]) != "1"}
+    for t in GE.subterms(enc):
+        if isinstance(t, list) and t[0] == "sum":
+            names |= {int(v[1]) for v in t[1] if str(v[3]) != "1"}
+    return names
 
 
 def conditional_extra(case):
     """variables the real code normalises over although they are not free event variables of the expression,
-    classified: 'bound' (a Sum range of the expression), 'subscript' (an intervention subscript)"""
+    classified: 'bound' (a Sum range of the expression); 'subscript' (an intervention subscript) cannot occur any more
+    after `fix:` a54a0f5 and is kept only so that a regression is named in the failure message, not excused"""
     a = case["a"]
     r = {int(v[1]) for v in case["r"]}
     extra = (python_conditional_names(a) - r) - (free_event_names(a) - r)
@@ -597,8 +601,9 @@ def shrink(case):
 
 
 def finding_key(case, res):
-    # open findings about `conditional` are keyed by mechanism (verified on the input, see run_python): every input on
-    # which the code normalises over a bound / subscript variable AND returns exactly e / Sum_{collected} e
+    # the open finding about `conditional` is keyed by mechanism (verified on the input, see run_python): every input on
+    # which the code normalises over a bound Sum range AND returns exactly e / Sum_{collected} e.  Only the key
+    # "conditional:extra=bound" is listed in known_findings.jsonl; "…subscript" (repaired) would be a VIOLATION again.
     if res.get("mechanism"):
         return res["mechanism"]
     c = {k: case[k] for k in ("op", "a", "b", "r", "reorder", "ordering") if k in case}
@@ -614,6 +619,6 @@ MANIFEST = {
              "(positivity where a division is cancelled). The models are tied to dsl.py / chain.py / contract.py on every "
              "run by differential testing through all operator class pairs; the oracle evaluates both sides exactly."),
     "note": ("Trusted: Lean kernel; Y0/Spec/Sem.lean; the hand-written models tied to the code by sampling. Open findings "
-             "(conditional over bound / subscript variables) are listed in known_findings.jsonl and print KNOWN-FINDING."),
+             "(conditional over bound Sum ranges; the subscript part of F11 is fixed) are listed in known_findings.jsonl and print KNOWN-FINDING."),
     "technique": "Lean 4 theorems over the denotational semantics + differential correspondence over every operator/helper + exact-rational oracle",
 }
